@@ -511,8 +511,15 @@ Definition image_from_node (n : xnode) : res image :=
   Ok (mkImage guid vr projection transform pc_guid name description acquisition
         sensor_vendor sensor_model sensor_serial).
 
-Definition images_from_document : xdoc -> res (list image) :=
-  vec_from_document (B"images2D") image_from_node.
+(** images.rs [vec_from_document]: the images2D element is looked for among the CHILDREN of the
+    first element named e57Root (not among all descendants of the document, as data3D is) *)
+Definition images2d_node (d : xdoc) : option xnode :=
+  opt_case (find_doc_desc (B"e57Root") d) (fun r => find_child (B"images2D") r) None.
+
+Definition images_from_document (d : xdoc) : res (list image) :=
+  opt_case (images2d_node d)
+    (fun v => map_res image_from_node (filter (is_vector_child (B"Structure")) (children v)))
+    (Ok []).
 
 (** * root.rs (versionMajor is read twice, as the code does) *)
 Definition root_from_document (d : xdoc) : res root :=
